@@ -117,7 +117,7 @@ fn sorted_yx(pts: &[Point]) -> bool {
 fn styled_out<I: Iterator<Item = Pixel<Rgb565>>, F: FnOnce(&mut IterTarget<Rgb565>)>(bb: Rectangle, pixels: I, draw: F) -> String {
     let px: Vec<(Point, u32)> = pixels.map(|Pixel(p, c)| (p, c.tag())).collect();
     // draw() on a recording target must paint exactly the pixels() sequence
-    let mut t = IterTarget::<Rgb565>::new(Rectangle::new(Point::new(-100000, -100000), Size::new(200000, 200000)));
+    let mut t = IterTarget::<Rgb565>::new(Rectangle::new(Point::new(-(1 << 30), -(1 << 30)), Size::new((1 << 31) - 2, (1 << 31) - 2)));
     draw(&mut t);
     let mut m = std::collections::BTreeMap::new();
     for (p, c) in &px {
